@@ -236,9 +236,9 @@ fn c18_round(ctx: &Ctx, out: &mut Out, rng: &mut Rng, k: u64) {
             std::thread::sleep(Duration::from_millis(5));
             out.obs("burst_phases_with_server_frozen", 1);
         }
-        // every fourth round the burst is preceded by batch_size tiny datagrams the server must
-        // drop (one whole batch without a single valid request)
-        let junk = if k % 4 == 1 { cfg.batch_size.unwrap_or(64) as usize } else { 0 };
+        // every other round (half of them with the server frozen) the burst is preceded by batch_size
+        // tiny datagrams the server must drop (one whole batch without a single valid request)
+        let junk = if k % 4 == 1 || k % 4 == 2 { cfg.batch_size.unwrap_or(64) as usize } else { 0 };
         for _ in 0..junk {
             let _ = sock.send_to(&brng.rbytes(1, 24), addr);
         }
@@ -422,6 +422,60 @@ enum Phase {
     Flood,
     /// nothing at all for half a minute (default status interval), then the signal
     LongIdle,
+    /// the process is at its descriptor limit and health-check connections are pending on the
+    /// listener (accept fails with EMFILE and dequeues nothing) when the signal arrives
+    AcceptFault,
+    /// client_stats on, datagrams from a very large population of distinct source addresses so
+    /// that merging / persisting the per-client table takes long, then the signal
+    Population,
+}
+
+/// one short datagram from each of `count` loopback source addresses base+i (IP_PKTINFO)
+fn send_from_many_sources(port: u16, base: u32, count: u32) -> u64 {
+    use std::os::unix::io::AsRawFd;
+    let Ok(sock) = UdpSocket::bind("0.0.0.0:0") else { return 0 };
+    let fd = sock.as_raw_fd();
+    let mut dst: libc::sockaddr_in = unsafe { std::mem::zeroed() };
+    dst.sin_family = libc::AF_INET as u16;
+    dst.sin_port = port.to_be();
+    dst.sin_addr.s_addr = u32::from_be_bytes([127, 0, 0, 1]).to_be();
+    let payload = *b"hello";
+    let mut ok = 0u64;
+    // cmsg buffer: header + in_pktinfo, 8-byte aligned
+    let mut cbuf = [0u64; 8];
+    for i in 0..count {
+        let src = base + i;
+        let mut iov = libc::iovec { iov_base: payload.as_ptr() as *mut libc::c_void, iov_len: payload.len() };
+        let mut msg: libc::msghdr = unsafe { std::mem::zeroed() };
+        msg.msg_name = &mut dst as *mut _ as *mut libc::c_void;
+        msg.msg_namelen = std::mem::size_of::<libc::sockaddr_in>() as u32;
+        msg.msg_iov = &mut iov;
+        msg.msg_iovlen = 1;
+        msg.msg_control = cbuf.as_mut_ptr() as *mut libc::c_void;
+        msg.msg_controllen = unsafe { libc::CMSG_SPACE(std::mem::size_of::<libc::in_pktinfo>() as u32) } as usize;
+        unsafe {
+            let c = libc::CMSG_FIRSTHDR(&msg);
+            (*c).cmsg_level = libc::IPPROTO_IP;
+            (*c).cmsg_type = libc::IP_PKTINFO;
+            (*c).cmsg_len = libc::CMSG_LEN(std::mem::size_of::<libc::in_pktinfo>() as u32) as usize;
+            let pi = libc::CMSG_DATA(c) as *mut libc::in_pktinfo;
+            (*pi).ipi_ifindex = 0;
+            (*pi).ipi_spec_dst.s_addr = src.to_be();
+            (*pi).ipi_addr.s_addr = 0;
+            if libc::sendmsg(fd, &msg, 0) >= 0 {
+                ok += 1;
+            }
+        }
+        if i % 256 == 255 {
+            // do not overrun the server's receive buffer
+            std::thread::sleep(Duration::from_micros(600));
+        }
+    }
+    ok
+}
+
+fn open_fds(pid: u32) -> usize {
+    std::fs::read_dir(format!("/proc/{}/fd", pid)).map(|d| d.count()).unwrap_or(0)
 }
 
 fn c19_run(ctx: &Ctx, out: &mut Out, rng: &mut Rng, k: u64) {
@@ -437,7 +491,8 @@ fn c19_run_phase(ctx: &Ctx, out: &mut Out, rng: &mut Rng, k: u64, force: Option<
     let nworkers = [1u32, 4, 16][((k / 2) % 3) as usize];
     let stats_on = (k / 6) % 2 == 1;
     let phase = force.unwrap_or([Phase::Idle, Phase::ClosedLoop, Phase::Flood][((k / 12) % 3) as usize]);
-    let stats_on = stats_on && phase != Phase::LongIdle;
+    let stats_on = (stats_on && phase != Phase::LongIdle && phase != Phase::AcceptFault) || phase == Phase::Population;
+    let nworkers = if phase == Phase::AcceptFault { [1u32, 2, 4][(k % 3) as usize] } else if phase == Phase::Population { 4 } else { nworkers };
     let delay_us = if phase == Phase::LongIdle { rng.range(30_000_000, if ctx.thorough { 90_000_000 } else { 34_000_000 }) } else { rng.below(300_000) };
     let mut cfg = SrvCfg::new(0, &seed);
     cfg.num_workers = Some(nworkers);
@@ -447,7 +502,10 @@ fn c19_run_phase(ctx: &Ctx, out: &mut Out, rng: &mut Rng, k: u64, force: Option<
         let d = ctx.scratch.join("persist19");
         std::fs::create_dir_all(&d).ok();
         cfg.persistence_directory = Some(d);
-        cfg.status_interval = Some(*rng.pick(&[1u32, 10, 600]));
+        cfg.status_interval = Some(if phase == Phase::Population { 10 } else { *rng.pick(&[1u32, 10, 600]) });
+    }
+    if phase == Phase::AcceptFault {
+        cfg.health_check_port = Some(free_port(true));
     }
     let Some(mut sp) = start_server(ctx, out, &cfg, &format!("c19-{}", k), None) else { return };
     let port = sp.cfg.port;
@@ -456,8 +514,67 @@ fn c19_run_phase(ctx: &Ctx, out: &mut Out, rng: &mut Rng, k: u64, force: Option<
     let sent = Arc::new(AtomicU64::new(0));
     let mut client_handles = Vec::new();
     let mut flood_handles = Vec::new();
+    #[allow(unused_assignments)]
+    let mut accept_conns: Vec<std::net::TcpStream> = Vec::new();
     match phase {
         Phase::Idle | Phase::LongIdle => {}
+        Phase::AcceptFault => {
+            // the limit is lowered to what the process has open, then connections are queued on
+            // the health listener: every worker's accept fails with EMFILE and nothing is dequeued
+            let n = open_fds(sp.pid());
+            let lim = libc::rlimit { rlim_cur: n as u64, rlim_max: n as u64 };
+            let r = unsafe { libc::prlimit(sp.pid() as i32, libc::RLIMIT_NOFILE, &lim, std::ptr::null_mut()) };
+            if r != 0 || n == 0 {
+                out.inconclusive("prlimit on the server failed");
+            }
+            let hp = cfg.health_check_port.unwrap();
+            let mut conns = Vec::new();
+            for _ in 0..(24 * nworkers) {
+                if let Ok(c) = std::net::TcpStream::connect_timeout(&format!("127.0.0.1:{}", hp).parse().unwrap(), Duration::from_millis(300)) {
+                    conns.push(c);
+                }
+            }
+            out.obs("accept_fault_pending_connections", conns.len() as i64);
+            // the connections stay open (pending) until the run is over
+            accept_conns = conns;
+            std::thread::sleep(Duration::from_millis(100));
+        }
+        Phase::Population => {
+            let total: u32 = if ctx.thorough { 3_600_000 } else { 2_400_000 };
+            let nthreads = 4u32;
+            let hs: Vec<_> = (0..nthreads)
+                .map(|t| {
+                    let per = total / nthreads;
+                    let base = u32::from_be_bytes([127, 1, 0, 0]) + t * per;
+                    std::thread::spawn(move || send_from_many_sources(port, base, per))
+                })
+                .collect();
+            let okn: u64 = hs.into_iter().map(|h| h.join().unwrap_or(0)).sum();
+            out.obs("population_datagrams_sent", okn as i64);
+            // wait for the reporter to persist the table (bounded), so the signal arrives afterwards
+            let t0 = Instant::now();
+            let mut wrote = None;
+            while t0.elapsed() < Duration::from_secs(40) {
+                let o = sp.output();
+                if let Some(l) = o.lines().find(|l| l.contains("Wrote ") && l.contains(" records")) {
+                    wrote = l.split("Wrote ").nth(1).and_then(|x| x.split(' ').next()).and_then(|x| x.parse::<i64>().ok());
+                    break;
+                }
+                std::thread::sleep(Duration::from_millis(200));
+            }
+            match wrote {
+                Some(n) => {
+                    out.obs("population_phase_reports_written", 1);
+                    out.obs_max("population_rows_persisted_max", n);
+                }
+                None => out.inconclusive("population phase: no stats report seen within 40 s"),
+            }
+            // the workers must still answer
+            let mut prng = Rng::new(k ^ 0x9091);
+            if probe(port, &pk, Proto::Classic, &mut prng, Duration::from_millis(1500)).is_err() && probe(port, &pk, Proto::Ietf, &mut prng, Duration::from_millis(1500)).is_err() {
+                out.violation("C19 population unanswered-after-report", "the server stopped answering after persisting a large per-client table", desc.clone());
+            }
+        }
         Phase::ClosedLoop => {
             for i in 0..16 {
                 let (pk, srv, stop) = (pk.clone(), srv.clone(), stop.clone());
@@ -521,6 +638,7 @@ fn c19_run_phase(ctx: &Ctx, out: &mut Out, rng: &mut Rng, k: u64, force: Option<
     // the load keeps going until the server exits or the bound expires
     let res = sp.wait_exit(Duration::from_secs(10));
     stop.store(true, Ordering::Relaxed);
+    drop(accept_conns);
     let mut verified = 0u64;
     let mut invalid: Option<String> = None;
     for h in client_handles {
@@ -604,6 +722,14 @@ pub fn run_c19(ctx: &Ctx, out: &mut Out) {
     if ctx.shard == 0 || (ctx.thorough && ctx.shard < 4) {
         c19_run_phase(ctx, out, &mut rng, 1000 + ctx.shard, Some(Phase::LongIdle));
     }
+    if ctx.shard == 1 || (ctx.thorough && ctx.shard == 5) {
+        c19_run_phase(ctx, out, &mut rng, 2000 + ctx.shard, Some(Phase::Population));
+    }
+    if (2..5).contains(&ctx.shard) || ctx.thorough {
+        for j in 0..(if ctx.thorough { 6 } else { 2 }) {
+            c19_run_phase(ctx, out, &mut rng, 3000 + 3 * j + ctx.shard, Some(Phase::AcceptFault));
+        }
+    }
     let n = ctx.share(72, 1_080);
     for i in 0..n {
         // interleave so that every shard sees every phase/signal/worker combination over time
@@ -614,6 +740,9 @@ pub fn run_c19(ctx: &Ctx, out: &mut Out) {
         }
     }
     out.floor("phase_LongIdle", 1);
+    out.floor("phase_AcceptFault", 2);
+    out.floor("phase_Population", 1);
+    out.floor("population_phase_reports_written", 1);
     out.floor("signal_runs", 20);
     out.floor("phase_Idle", 1);
     out.floor("phase_ClosedLoop", 1);
